@@ -161,6 +161,7 @@ def collect(rep, results, key_fn, replay_fn, sample_fn=None, what_fn=None):
         rep.extra["reachability_witnesses"] = rep.extra.get("reachability_witnesses", 0) + r.get("reach", 0)
         for u in r.get("unconfirmed", []):
             rep.unconfirmed.append(u)
+        rep.validated += r.get("validated", 0)
         name = r.get("name") or (r.get("text") or repr(r.get("spec")))[-160:]
         if r["result"] == "holds":
             rep.obligation(name, "holds", paths=r.get("paths"))
@@ -209,3 +210,30 @@ def shape_key(spec):
             return "".join(it(y) for y in x if y is not None)
         return str(x)
     return it(spec)
+
+
+def validate_native(E, paths, lv, conc, out, nmax=2):
+    """encoder validation (DESIGN 2.4): a model of up to nmax explored paths is instantiated to concrete literals and the
+    *native* real code (no proxies) is compared with the concrete reference.  The symbolic run said 'holds' for all values,
+    so a native mismatch means the proxies/stubs mis-model the real code on that path: it is reported (it is a real
+    reproduction), and counted, never ignored."""
+    done = 0
+    for pth in paths:
+        if done >= nmax:
+            break
+        if pth.kind == "abort":
+            continue
+        r, mdl = E.query(pth, z3.BoolVal(True), extra=[v <= 40 for (_, _, v) in lv.vars])
+        if r != "sat":
+            r, mdl = E.query(pth, z3.BoolVal(True))
+        if r != "sat":
+            continue
+        vals = lv.model_values(mdl)
+        res = conc(vals)
+        done += 1
+        if isinstance(res, dict):
+            res["what"] = "native run differs from the reference although the symbolic run found no difference (encoder gap): " + str(res.get("what"))
+            out["result"] = "violation"
+            out["cex"] = res
+            break
+    out["validated"] = out.get("validated", 0) + done
